@@ -690,3 +690,207 @@ def multiset_oracle(c, out):
             exp.append((lab, tuple((lab if col == 'Data' else (r[fc.index(col)] if col in fc else 'nan')) for col in cols)))
     got = [(name, tuple(p)) for name, pts in out[1] for p in pts]
     return sorted(map(repr, exp)) == sorted(map(repr, got)), f'expected {sorted(map(repr, exp))[:6]} got {sorted(map(repr, got))[:6]}'
+
+
+# ---------------------------------------------------------------------------------------------------------
+# the check
+# ---------------------------------------------------------------------------------------------------------
+def direct_repro(key, ep, combo, seed):
+    if key.startswith('F16a'):
+        return DIRECT_REPROS['F16a']
+    m = re.match(r'F16b:(_generate_scatter_([23])d_plot|(scatter|compare)_([23])d)', key)
+    if m:
+        fn = m.group(1)
+        k = int(m.group(2) or m.group(4))
+        cols = ['a', 'b', 'c'][:k]
+        if fn.startswith('_generate'):
+            call = f"df['Data'] = 'Real'; {fn}(df, cols, {{'Real': '#000036'}}, 't')"
+        elif fn.startswith('scatter'):
+            call = f'{fn}(df, cols)'
+        else:
+            call = f'{fn}(df, df, cols)'
+        return DIRECT_REPROS['F16b'].format(fn=fn, cols=cols, call=call)
+    m = re.match(r'F3:tree-fit-writes-tau-matrix:(\w+)', key)
+    if m:
+        return DIRECT_REPROS['F3tree'].format(tt=m.group(1))
+    m = re.match(r'F3:vine-fit-raises-readonly:(\w+)', key)
+    if m:
+        return DIRECT_REPROS['F3vine'].format(tt=m.group(1))
+    return repro_for(ep, combo, seed)
+
+
+def model_verdicts(ctx, info):
+    expr = 'map (fun e => (fst (fst e), callsum gen_table 24 (snd (fst e)))) gen_entries'
+    out = cases.run_vm_cases(ctx, 'Cases_C20_verdicts', 'From Cop Require Import Model.Alias.\nFrom CopRun Require Import Gen_effects.', [expr])
+    res = {}
+    if out and out[0]:
+        for m in re.finditer(r'\("([^"]+)",\s*\[([^\]]*)\]\)', out[0]):
+            res[m.group(1)] = [x.strip() == 'true' for x in m.group(2).split(';') if x.strip()]
+    return res
+
+
+def run(ctx):
+    quick = ctx.tier == 'quick'
+    seed = ctx.seed
+    # ---------------- 1. static: regenerate the effect programs, re-check the theorems
+    txt, info = effects.generate(effects.ENTRY_POINTS)
+    errors = info['__errors__']
+    for q in effects.ENTRY_POINTS:
+        ctx.obligation(f'translate:{q}', q not in errors and q in info, 'translation', errors.get(q, ''))
+    ctx.obligation('translate:call-graph-depth<=12', info['__depth__'] <= 12, 'translation', f"depth {info['__depth__']}")
+    ctx.write('Gen_effects.v', txt)
+    ctx.copy_src('Props/C20.v')
+    compiled = ctx.compile(['Gen_effects.v', 'C20.v'])
+    verdicts = model_verdicts(ctx, info) if compiled or True else {}
+    mirror_ok = all(verdicts.get(q) == v for q, v in info['__pyverdict__'].items()) if verdicts else False
+    ctx.obligation('extractor:python-mirror-equals-coq-analysis', mirror_ok, 'correspondence',
+                   str([(q, verdicts.get(q), v) for q, v in info['__pyverdict__'].items() if verdicts.get(q) != v][:5]))
+    if not verdicts:
+        verdicts = info['__pyverdict__']
+    ctx.extra['static_entry_points'] = {q: {'params': info[q]['params'], 'implicit': info[q]['implicit'],
+                                            'verdict': verdicts.get(q), 'instructions': info[q]['ninstr']}
+                                        for q in effects.ENTRY_POINTS if q in info}
+    ctx.extra['generated_functions'] = len([k for k in info if not k.startswith('__')])
+    ctx.extra['extractor_assumptions'] = info['__assumptions__']
+    ctx.rule('static: effect programs of %d entry points (+ %d callees) regenerated from the AST by tools/vf/effects.py (fail-closed alias table); '
+             'verdicts recomputed in Coq' % (len(effects.ENTRY_POINTS), ctx.extra['generated_functions'] - len(effects.ENTRY_POINTS)))
+
+    # ---------------- 2. dynamic: every entry point twice on snapshotted arguments of every container kind
+    rng = np.random.default_rng(seed + 20)
+    eps = build_entry_points(rng)
+    observed = {}          # (static name, param) -> True/False
+    exercised = {}
+    blocked = {}
+    n_combo = 0
+    seen_keys = set()
+    for ep in eps:
+        combos = combos_of(ep)
+        outs = []
+        for combo in combos:
+            try:
+                o = run_combo(ep, combo, rng)
+            except Exception:
+                ctx.obligation(f'dynamic:{ep.name}:{combo}', False, 'harness', traceback.format_exc()[-600:])
+                continue
+            outs.append((combo, o))
+            n_combo += 1
+        base_ro = bool(outs) and outs[0][1]['raised1'] and 'read-only' in outs[0][1]['r1'][2]
+        all_raised = bool(outs) and all(o['raised1'] for _, o in outs)
+        if all_raised:
+            blocked[ep.name] = f"{outs[0][1]['r1'][1]}: {outs[0][1]['r1'][2][:160]}"
+        for combo, o in outs:
+            muts = set(o['mut1']) | set(o['mut2'])
+            # a read-only argument that makes the call fail where the writable one succeeds = a write attempt on that argument
+            if o['raised1'] and 'read-only' in o['r1'][2] and not base_ro:
+                for pn, kd in combo.items():
+                    if kd.endswith('_ro'):
+                        muts.add(pn)
+                        o['detail'][pn] = 'raises "assignment destination is read-only" when this argument is read-only'
+            for pn, _, _, _ in ep.params:
+                if ep.static:
+                    observed[(ep.static, pn)] = observed.get((ep.static, pn), False) or (pn in muts)
+                    exercised[(ep.static, pn)] = exercised.get((ep.static, pn), False) or not o['raised1'] or (pn in muts)
+            ctx.case((ep.name, tuple(sorted(combo.items()))),
+                     {'entry_point': ep.name, 'containers': combo, 'mutated': sorted(muts), 'raised': o['r1'][1] if o['raised1'] else None,
+                      'second_call_same_result': o['r1'] == o['r2']},
+                     nontrivial=(not o['raised1']) or bool(muts))
+            for pn in sorted(muts):
+                key, what = finding_key(ep, pn.replace('self.', 'self.'))
+                if key in seen_keys:
+                    continue
+                seen_keys.add(key)
+                extra = ''
+                if o['r1'] != o['r2']:
+                    extra = f"; the second identical call then {'raises ' + o['r2'][1] if o['raised2'] else 'returns a different result'}"
+                ctx.violation(key, f"{what}: {o['detail'].get(pn, '')}{extra}",
+                              {'entry_point': ep.name, 'containers': combo, 'seed': seed + 20, 'detail': o['detail'],
+                               'repro': direct_repro(key, ep, combo, seed + 20)})
+            if not muts and o['r1'] != o['r2']:
+                key = f'second-call-differs:{ep.name}'
+                if key not in seen_keys:
+                    seen_keys.add(key)
+                    ctx.violation(key, f'{ep.name}: a second identical call with the same (unmodified) argument objects gives a different result '
+                                       f'({str(o["r1"])[:80]} vs {str(o["r2"])[:80]})',
+                                  {'entry_point': ep.name, 'containers': combo, 'seed': seed + 20, 'repro': repro_for(ep, combo, seed + 20)})
+        m = re.match(r'multivariate\.vine\.VineCopula\.fit\[(\w+)\]', ep.name)
+        if m and all_raised and base_ro:
+            key = f'F3:vine-fit-raises-readonly:{m.group(1)}'
+            ctx.violation(key, f'VineCopula({m.group(1)!r}).fit(X) raises "assignment destination is read-only" for every DataFrame under pandas 3: '
+                               'X.corr().to_numpy() is read-only and Tree.fit writes into the matrix it is handed',
+                          {'entry_point': ep.name, 'repro': direct_repro(key, ep, {}, seed)})
+    ctx.extra['dynamic_entry_points'] = len(eps)
+    ctx.extra['dynamic_calls'] = 2 * n_combo
+    ctx.extra['blocked_entry_points'] = blocked
+    ctx.rule('dynamic: %d public entry points x every accepted container kind (ndarray C/F-order, non-contiguous view, read-only, int64; DataFrame '
+             'float/int/column-subset view; Series default/int/labelled index; dict; list), one kind varied at a time; each called twice on the '
+             'same argument objects; deep snapshots (bytes, dtype, shape, strides, flags, base buffer, index/columns) compared after each call; '
+             'results of the two calls compared; data from default_rng(seed+20)' % len(eps))
+
+    # ---------------- 3. model verdict vs observation
+    static_with_dynamic = set()
+    for (q, pn), obs in sorted(observed.items()):
+        static_with_dynamic.add(q)
+        if q not in info:
+            continue
+        names = info[q]['params'] + ['self.' + a for a in info[q]['implicit']]
+        if pn not in names or q not in verdicts or len(verdicts[q]) != len(names):
+            ctx.obligation(f'corr:verdict:{q}:{pn}', False, 'correspondence', f'parameter {pn} not among {names} / no verdict')
+            continue
+        mv = verdicts[q][names.index(pn)]
+        if mv == obs:
+            ctx.obligation(f'corr:verdict:{q}:{pn}', True, 'correspondence', f'model={mv} observed={obs}')
+        elif mv and not obs:
+            ok = (q, pn) in IMPRECISE
+            ctx.obligation(f'corr:verdict:{q}:{pn}', ok, 'correspondence',
+                           f'model says "may write {pn}", never observed' + (' (documented over-approximation)' if ok else ''))
+            if not ok:
+                ctx.violation(f'corr-overapprox:{q}:{pn}', f'the effect model flags {q}({pn}) as written but no call modified it',
+                              {'explains': f'corr:verdict:{q}:{pn}', 'repro': ''}, found=False)
+        else:
+            ctx.obligation(f'corr:verdict:{q}:{pn}', False, 'correspondence',
+                           f'UNSOUND alias table or extractor: model says {pn} is never written, the implementation modified it')
+    ctx.extra['static_only_entry_points'] = sorted(set(effects.ENTRY_POINTS) - static_with_dynamic)
+    ctx.extra['dynamic_only_entry_points'] = sorted({e.name for e in eps if not e.static})
+
+    # ---------------- 4. plots: figure traces and the caller's columns list vs Model.Plot
+    prng = np.random.default_rng(seed + 2020)
+    pcs = [gen_plot_case(prng) for _ in range(60 if quick else 600)]
+    outs = cases.run_vm_cases(ctx, 'Cases_C20_plot', 'From Cop Require Import Model.Plot.', [coq_plot_expr(c) for c in pcs], per_file=50)
+    kinds = {}
+    for i, (c, o) in enumerate(zip(pcs, outs)):
+        model = parse_plot(o)
+        cols, out, frames_ok = run_plot_impl(c)
+        ok = model is not None and model[0] != 'unparsed' and model == (cols, out)
+        kinds[out[1] if out[0] == 'err' else 'figure'] = kinds.get(out[1] if out[0] == 'err' else 'figure', 0) + 1
+        ctx.obligation(f'corr:plot{i}', ok, 'correspondence', f'case={c}\nmodel={model}\nimpl ={(cols, out)}')
+        ctx.case(('plot', i), {'plot_case': c, 'outcome': out[0] if out[0] == 'err' else f'{len(out[1])} traces'},
+                 nontrivial=out[0] == 'ok' and any(pts for _, pts in out[1]))
+        if not ok:
+            ctx.violation(f'corr:plot-model:{c["fn"]}_{c["k"]}d', f'Model.Plot and copulas.visualization disagree on {c}',
+                          {'case': c, 'model': str(model)[:1500], 'impl': str((cols, out))[:1500], 'repro': plot_repro(c)})
+        ms_ok, why = multiset_oracle(c, out)
+        if not ms_ok:
+            ctx.violation(f'plot-rows:{c["fn"]}_{c["k"]}d', f'figure does not contain every given row exactly once under its label: {why}',
+                          {'case': c, 'repro': plot_repro(c)})
+        if not frames_ok:
+            ctx.violation(f'mutation:visualization.{c["fn"]}_{c["k"]}d:frames', 'a plot function modified the DataFrame it was given',
+                          {'case': c, 'repro': plot_repro(c)})
+        if c['columns'] and cols != c['columns']:
+            key = f'F16b:{c["fn"]}_{c["k"]}d-appends-Data-to-columns'
+            if key not in seen_keys:
+                seen_keys.add(key)
+                ctx.violation(key, f"copulas.visualization.{c['fn']}_{c['k']}d appends 'Data' to the caller's `columns` list: {c['columns']} -> {cols}",
+                              {'case': c, 'repro': direct_repro(key, None, None, seed)})
+    ctx.extra['plot_outcomes'] = kinds
+    ctx.rule('plots: random small integer frames (0-5 rows, 1-4 columns out of a..e, sometimes a user column named Data, synthetic frame with the same '
+             'or different columns), columns = None / [] / valid / repeated / unknown / too short / too long / containing Data, title given or not; '
+             'scatter_2d/3d, compare_2d/3d; traces (name, points in order), error class and the caller\'s columns list compared with vm_compute of Model.Plot')
+    ctx.trusted += ['tools/vf/effects.py: the effect extractor and its alias table (numpy/pandas/builtin view/copy/mutator facts), validated by the '
+                    'dynamic verdict comparison; calls whose arguments cannot reach a parameter are not translated',
+                    'Model.Plot: hand-written transcription of copulas/visualization.py and of plotly.express.scatter grouping (one trace per label '
+                    'in order of first appearance), tied by the trace correspondence',
+                    'container reach-through convention: the content of an object includes the objects it holds; objects passed as models (Tree, Edge) '
+                    'are not treated as caller-owned data']
+    ctx.assumptions += ['callables received as arguments (f of bisect/chandrupatla) and local closures do not write to their arguments',
+                        'parameters with scalar defaults / listed in effects.IMMUT_PARAMS are immutable scalars or strings',
+                        'no module-level state holds aliases of caller inputs'] + info['__assumptions__'][:6]
